@@ -63,7 +63,9 @@ func setup(n int) *world {
 		for _, o := range w.heights {
 			verif.Assume(!h.EQ(o))
 		}
-		cs := &ibctm.ConsensusState{Timestamp: time.Unix(verif.Int64(tag+".sec"), 0).UTC(), Root: commitmenttypes.NewMerkleRoot(verif.Bytes(tag + ".root")), NextValidatorsHash: verif.Bytes(tag + ".valhash")}
+		sec := verif.Int64(tag + ".sec")
+		verif.Assume(sec >= 0 && sec < 253402300800) // protobuf's timestamp range, after 1970
+		cs := &ibctm.ConsensusState{Timestamp: time.Unix(sec, 0).UTC(), Root: commitmenttypes.NewMerkleRoot(verif.Bytes(tag + ".root")), NextValidatorsHash: verif.Bytes(tag + ".valhash")}
 		verif.Assume(len(cs.Root.Hash) > 0)
 		setConsensusState(w.st, models.Codec{}, cs, h)
 		setConsensusMetadataWithValues(w.st, h, symHeight(tag+".processed"), verif.Uint64(tag+".processedTime"))
